@@ -104,9 +104,44 @@ fn check_payloads(w: &mut World) {
     // zero-length packets all look alike: no more of them delivered than submitted
     let mut empty_got: HashMap<SocketAddr, usize> = HashMap::new();
     let sev: Vec<(SocketAddr, EvRec)> = w.server.events.clone();
+    // which client object submitted a payload (payloads are unique per world)
+    let mut submitter: HashMap<(SocketAddr, u64, usize), usize> = HashMap::new();
+    for (i, c) in w.clients.iter().enumerate() {
+        for e in c.events.iter() {
+            if let Ev::AppSend(h, l, _) = e.ev {
+                submitter.entry((c.addr, h, l)).or_insert(i);
+            }
+        }
+    }
     for (a, e) in sev.iter() {
         if let Ev::Receive(h, l) = e.ev {
             w.c.inc("ep_receives_checked");
+            // Data frames carry no connection identity. A frame of an EARLIER connection of the same
+            // address pair that the network delays until a later connection is up is taken for a
+            // frame of the later one if its id falls into the new receive window, i.e. if the two
+            // client nonces (= initial sequence numbers) lie within a window of each other. With
+            // random nonces that has probability ~2^-19 per reconnect; the harness forces adjacent
+            // nonces (0, 2^32-1, ...) to exercise wrap-around, which makes it observable. Recorded
+            // finding with its own signature; anything else delivered twice / unknown is reported.
+            if l > 0 {
+                if let Some(&x) = submitter.get(&(*a, h, l)) {
+                    let receiving = w.clients.iter().enumerate().filter(|(_, c)| c.addr == *a && c.created_ns <= e.t_ns).map(|(i, c)| (c.created_ns, i)).max().map(|(_, i)| i);
+                    if let Some(y) = receiving {
+                        if y != x && w.clients[x].created_ns < w.clients[y].created_ns {
+                            let near = match (w.clients[x].syn_nonce, w.clients[y].syn_nonce) {
+                                (Some(nx), Some(ny)) => nx.wrapping_sub(ny).min(ny.wrapping_sub(nx)) <= 2 * 8192,
+                                _ => false,
+                            };
+                            let sent_by_x_before_y = w.wire.iter().any(|r| r.src == *a && r.t_ns < w.clients[y].created_ns && matches!(r.frame, Some(RFrame::Data { .. })));
+                            if near && sent_by_x_before_y {
+                                w.viol("C01", "ep-delivered-frame-of-earlier-connection", format!("server handed the application of the connection with client object {} (created t={} ms, nonce {:?}) a {}-byte packet at t={} ms that client object {} of an earlier connection from the same address {} (nonce {:?}) had submitted: a delayed data frame of the earlier connection was accepted by the later one, whose initial sequence number lies within a window of the earlier one's", y, w.clients[y].created_ns / MS, w.clients[y].syn_nonce, l, e.t_ns / MS, x, a, w.clients[x].syn_nonce));
+                                seen.insert((*a, h));
+                                continue;
+                            }
+                        }
+                    }
+                }
+            }
             if !by_client.get(a).map_or(false, |s| s.contains(&(h, l))) {
                 w.viol("C01", "ep-delivered-unknown", format!("server handed the application a {}-byte packet from {} at t={} ms that no client at that address submitted", l, a, e.t_ns / MS));
             } else if l == 0 {
@@ -2037,7 +2072,7 @@ pub fn run_ep_recover(seed: u64, params: &Params, out: &mut ScnOut) {
                 2 => "loss-burst",
                 _ => "loss-at-start",
             };
-            let class = if starved { "peer-sender-at-floor-rate" } else { "peer-sender-not-starved" };
+            let class = if starved { "peer-sender-at-floor-rate" } else if diag.contains("[rto>=20s]") { "peer-sender-rto-above-active-timeout" } else { "peer-sender-not-starved" };
             w.violations.push(Violation::new("C11", "connection-died-after-finite-loss", &format!("C11:connection-died-after-finite-loss:{}", class), format!("connection of {} ended with {:?} at t={} ms although the only fault was '{}' ending at t={} ms (all active timeouts 20 s, keepalive every 2 s, both applications kept calling step()); {}", addr, e.ev, e.t_ns / MS, fault, fair_from / MS, diag)));
         } else if probes_sent {
             for (ci, h, l) in probe_uids.iter().filter(|p| p.0 == i) {
